@@ -7,7 +7,8 @@ From SV Require Import Base.Ids Bits.Hibit.
 Import ListNotations.
 
 Definition hb_apply (s : bitset) (ops : list Z) : bitset :=
-  fold_left (fun s z => if (0 <? z)%Z then bs_add s (Z.to_N (z - 1)) else bs_remove s (Z.to_N (- z - 1))) ops s.
+  fold_left (fun s z => if (0 <? z)%Z then bs_add s (Z.to_N (z - 1))
+                        else if (z <? 0)%Z then bs_remove s (Z.to_N (- z - 1)) else bs_empty) ops s.
 
 Definition dump_layer (tag : Z) (m : NM.t word) : list (list Z) :=
   flat_map (fun p => match snd p with [] => [] | _ => [tag :: Z.of_N (fst p) :: map Z.of_N (snd p)] end) (NM.elements m).
@@ -35,6 +36,7 @@ Definition combo_getter (c : Z) (a b : bitset) : getter :=
   else if (c =? 2)%Z then g_or (bs_get a) (bs_get b)
   else if (c =? 3)%Z then g_xor (bs_get a) (bs_get b)
   else if (c =? 4)%Z then g_and (bs_get a) (g_not (bs_get b))
+  else if (c =? 6)%Z then g_or (bs_get b) (bs_get a)
   else bs_get a.
 
 Definition op_index (z : Z) : N := if (0 <? z)%Z then Z.to_N (z - 1) else Z.to_N (- z - 1).
@@ -62,7 +64,7 @@ Definition hibit_transcript (h : list Z) : list (list Z) :=
       let fuel := (8 * (length aops + length bops) + 16)%nat in
       let t := fst (dec_tree (S (length tr)) tr) in
       dump 20 a ++ dump 30 b
-      ++ [12%Z :: map (fun z => if g_contains g (op_index z) then 1%Z else 0%Z) (aops ++ bops)]
+      ++ [12%Z :: map (fun z => if g_contains g (op_index z) then 1%Z else 0%Z) (filter (fun z => negb (z =? 0)%Z) (aops ++ bops))]
       ++ [out_items 10 (drain_iter g fuel (fresh g))]
       ++ map (fun it => out_items 11 (drain_iter g fuel it)) (leaves g average_ones (fresh g) t)
   end.
